@@ -97,8 +97,19 @@ prop('C07',
      assumes=['everything C12 assumes', 'A-PROTO'],
      not_decided='the optimizer itself (rediff.analyzePatch / Optimize are not under contract: grammar of the rewritten stream, target index, mapping choice); output compression')
 
+OVERLAY = [('/pwr/overlay', '(*overlayWriter).fresh'), ('/pwr/overlay', '(*overlayWriter).skip'), ('/pwr/overlay', '(*overlayProcessor).write'),
+           ('/pwr/overlay', '(*overlayProcessor).Write'), ('/pwr/overlay', 'NewOverlayWriter'), ('/pwr/overlay', '(*overlayWriter).Finalize'),
+           ('/pwr/overlay', '(*OverlayPatchContext).Patch')]
+OVERLAY_ENTRY = [('/pwr/bowl', '(*overlayEntryWriter).Save'), ('/pwr/bowl', '(*overlayEntryWriter).Resume')]
+
+prop('C14',
+     functions=OVERLAY + OVERLAY_ENTRY + WIRE_READ,
+     assumes=['A-FULLREAD (the old-file reader of the overlay writer: without full reads the comparison would be misaligned after a short read)',
+              'A-IO (bufio.Writer passes the byte stream through in order and calls the processor again after a short write)', 'A-PROTO'],
+     not_decided='the composition lemma "truncate(patch(old, overlay), finalPos) == new" over all write partitions is not stated as one machine-checked lemma: the check proves the per-emission preconditions it follows from (SKIP only where new == old at the read offset, FRESH exactly the new content at the read offset, window fully tiled, offsets advance with every emission, applier moves/writes exactly Len/Data); truncation in applyOverlays (bowl) is not under contract')
+
 # properties with a registered check
-CLAIMED = {'C18', 'C04', 'C09', 'C17', 'C11', 'C08', 'C01', 'C10', 'C12', 'C07'}
+CLAIMED = {'C18', 'C04', 'C09', 'C17', 'C11', 'C08', 'C01', 'C10', 'C12', 'C07', 'C14'}
 # reasons for properties not claimed (kept current)
 NOT_APPLICABLE = {}
 LEVEL_TEXT = {
@@ -111,5 +122,6 @@ LEVEL_TEXT = {
  'C10': {'text': 'Proof (safety sweep with contracts): every slice/index expression, division, make and pool call of the functions on the read paths under contract is in range for arbitrary field values read from a stream; every message loop has a decreasing measure (unread bytes / block index); old-file indices are validated before they reach the container or the pool.', 'design_ref': 'DESIGN.md §5 C10'},
  'C12': {'text': 'Proof of the function-level clauses: Apply reads the add run at OldOffset (seek first), adds byte-wise mod 256, writes the copy run and moves the offset by len(Add)+Seek, depending on nothing else (resume from a saved offset); lrufile never reuses a live slot, reads the chunk of the offset, never hands out bytes beyond the file and reports io.EOF only with a short read; the differ\'s partition/scan-block arithmetic never divides by zero, never sorts an empty partition, tiles the new buffer; every match has its add run before its copy run inside both buffers; Seek is the gap to the next add run.', 'design_ref': 'DESIGN.md §5 C12'},
  'C07': {'text': 'Proof of the clauses the optimizer\'s output correctness rests on: termination without crash of the differ for all partition settings (C12 arithmetic), bsdiff series consumed and skipped by their grammar in the patcher, old-file index validated before use. The optimizer\'s own functions are not under contract.', 'design_ref': 'DESIGN.md §5 C07'},
+ 'C14': {'text': 'Proof (unbounded in file sizes, window contents and write partition): every SKIP covers only bytes where the new content equals the old file at the current read offset, every FRESH is exactly the new content at the read offset, each window is fully tiled and the read offset advances by the window length with the reader kept aligned; the header is written exactly at overlay offset 0 so a resumed session continues the same stream; the end marker follows a flush; the applier moves by Len on SKIP, writes Data on FRESH and stops at the marker; a checkpoint reads its offsets after flush+sync and Resume repositions reader, stage file and overlay writer at exactly those offsets without truncating.', 'design_ref': 'DESIGN.md §5 C14, App. A.3'},
  'C04': {'text': 'Proof of the function-level clauses: split function cases, one hash per scanned block plus the empty-file entry with correct index/short size, hash grouping by prefix sums of per-file hash counts (ComputeHashInfo, incl. error iff count differs), block validator verdicts; rolling/from-scratch weak hash equals the recursive specification.', 'design_ref': 'DESIGN.md §5 C04'},
 }
